@@ -278,6 +278,91 @@ fn feats(f: &[&str]) -> Vec<String> {
 
 const ALL: &[&str] = &["serde", "regex", "arbitrary", "new_unchecked"];
 
+// ------------------------------------------------------------------------------------ C10 other inner shapes
+
+/// Inner types of the "any other type" family that the run-time corpus does not hold - maps, arrays, Option,
+/// tuples - with and without `IntoIterator` in the derive list: transparent JSON and a round trip, decided by a
+/// generated `#[test]` per unit.
+pub fn c10_shape_units() -> Vec<Unit> {
+    let mut out = vec![];
+    let header = "#![allow(unused, non_snake_case, non_camel_case_types, clippy::all)]\nuse nutype::nutype;\nuse crate::prelude::*;\nuse ::std::collections::{BTreeMap, BTreeSet, HashMap, VecDeque};\n";
+    for (name, ty, value) in [
+        ("btreemap", "BTreeMap<String, i32>", "[(\"a\".to_string(), 1), (\"b\".to_string(), 2)].into_iter().collect::<BTreeMap<String, i32>>()"),
+        ("hashmap-one", "HashMap<String, i32>", "[(\"a\".to_string(), 1)].into_iter().collect::<HashMap<String, i32>>()"),
+        ("array", "[i32; 3]", "[1, 2, 3]"),
+        ("option-some", "Option<i32>", "Some(7)"),
+        ("option-none", "Option<i32>", "None::<i32>"),
+        ("btreeset", "BTreeSet<i32>", "[3, 1, 2].into_iter().collect::<BTreeSet<i32>>()"),
+        ("vecdeque", "VecDeque<i32>", "[3, 1, 2].into_iter().collect::<VecDeque<i32>>()"),
+        ("tuple", "(i32, String)", "(1, \"x\".to_string())"),
+        ("nested-vec", "Vec<Vec<u8>>", "vec![vec![1u8, 2], vec![]]"),
+    ] {
+        for with_iter in [true, false] {
+            if with_iter && name == "tuple" {
+                continue; // tuples are not IntoIterator
+            }
+            let derives = if with_iter { "Debug, Clone, PartialEq, Serialize, Deserialize, IntoIterator" } else { "Debug, Clone, PartialEq, Serialize, Deserialize" };
+            let decl = format!("#[nutype(derive({derives}))]\npub struct T({ty});");
+            let test = format!(
+                "#[test]\nfn json_is_transparent_and_round_trips() {{\n    let inner: {ty} = {value};\n    let v = T::new(inner.clone());\n    let js = ::serde_json::to_string(&v).unwrap();\n    assert_eq!(js, ::serde_json::to_string(&inner).unwrap(), \"not the inner value's own encoding\");\n    let back: T = ::serde_json::from_str(&js).unwrap();\n    assert_eq!(back, v);\n    let val = ::serde_json::to_value(&v).unwrap();\n    let back2: T = ::serde_json::from_value(val).unwrap();\n    assert_eq!(back2, v);\n}}\n"
+            );
+            out.push(Unit {
+                id: String::new(),
+                class: format!("shape:{name}:{}", if with_iter { "with-IntoIterator" } else { "plain" }),
+                features: feats(ALL),
+                source: format!("{header}{decl}\n{test}"),
+                expect: Expect::Accept,
+                expect_errors: vec![],
+                tests_must_fail: vec![],
+                tests_must_pass: vec!["json_is_transparent_and_round_trips".into()],
+                decl,
+                nontrivial: true,
+            });
+        }
+    }
+    for (i, u) in out.iter_mut().enumerate() {
+        u.id = format!("j{:04}", i + 1);
+    }
+    out
+}
+
+// ------------------------------------------------------------------------------------ C13 borrowed forms
+
+/// `Borrow<X>` promises that `Hash`, `Eq` and `Ord` of the newtype agree with those of `X`. The run-time check
+/// compares against the borrowed forms it knows (the inner type; `str` and `String` for strings); any further
+/// `Borrow` impl would be a promise nobody checks, so there must be none: borrowing as another type does not
+/// compile.
+pub fn c13_gate_units() -> Vec<Unit> {
+    let mut out = vec![];
+    let header = "#![allow(unused, non_snake_case, non_camel_case_types, clippy::all)]\nuse nutype::nutype;\nuse crate::prelude::*;\nuse ::core::borrow::Borrow;\n";
+    let all = "Debug, Clone, PartialEq, Eq, PartialOrd, Ord, Hash, Borrow, AsRef, Deref";
+    for (fam, decl, mk, forms) in [
+        ("string", format!("#[nutype(sanitize(trim), validate(not_empty), derive({all}))]\npub struct T(String);"), "T::try_new(\"ab\").unwrap()", vec![("str", true), ("String", true), ("[u8]", false), ("Vec<u8>", false), ("::std::path::Path", false), ("::std::ffi::OsStr", false)]),
+        ("int", format!("#[nutype(validate(greater = 0), derive({all}))]\npub struct T(i32);"), "T::try_new(5).unwrap()", vec![("i32", true), ("i64", false), ("u32", false), ("[u8; 4]", false)]),
+        ("vec", format!("#[nutype(validate(predicate = |v| !v.is_empty()), derive({all}))]\npub struct T(Vec<i32>);"), "T::try_new(vec![1]).unwrap()", vec![("Vec<i32>", true), ("[i32]", false)]),
+    ] {
+        for (form, ok) in forms {
+            let body = format!("pub fn f() {{ let t = {mk}; let _b: &{form} = Borrow::<{form}>::borrow(&t); }}\n");
+            out.push(Unit {
+                id: String::new(),
+                class: format!("borrow-as:{fam}:{}", form.replace(['<', '>', ':', ' ', ';', '[', ']'], "_")),
+                features: feats(ALL),
+                source: format!("{header}{decl}\n{body}"),
+                expect: if ok { Expect::Accept } else { Expect::Reject },
+                expect_errors: vec![],
+                tests_must_fail: vec![],
+                tests_must_pass: vec![],
+                decl: decl.clone(),
+                nontrivial: true,
+            });
+        }
+    }
+    for (i, u) in out.iter_mut().enumerate() {
+        u.id = format!("b{:04}", i + 1);
+    }
+    out
+}
+
 // ------------------------------------------------------------------------------------ C16 scope
 
 /// The message and the validator are generated from the same bound tokens; they must also resolve them in the
@@ -436,6 +521,34 @@ pub fn c12_gate_units() -> Vec<Unit> {
                 nontrivial: true,
             });
         }
+    }
+    // floats behind another spelling (an alias, a path, a container) fall into the "any other type" family:
+    // Eq / Ord there must still fail, through the inner type not being Eq
+    for (name, pre, ty) in [
+        ("alias", "pub type Seconds = f64;\n", "Seconds"),
+        ("primitive-path", "", "::core::primitive::f32"),
+        ("option", "", "Option<f64>"),
+        ("array", "", "[f32; 3]"),
+        ("vec", "", "Vec<f64>"),
+        ("tuple", "", "(i32, f64)"),
+    ] {
+        for (dn, dv) in [("eq", "PartialEq, Eq"), ("ord", "PartialEq, Eq, PartialOrd, Ord")] {
+            let (source, decl) = raw_unit(Inner::Point, &format!("derive(Debug, Clone, {dv})"), &format!("pub struct T({ty});"), pre);
+            out.push(Unit {
+                id: String::new(),
+                class: format!("derive-gate:{dn}-on-float-like-any-type:{name}"),
+                features: feats(ALL),
+                source,
+                expect: Expect::Reject,
+                expect_errors: vec![],
+                tests_must_fail: vec![],
+                tests_must_pass: vec![],
+                decl,
+                nontrivial: true,
+            });
+        }
+        let (source, decl) = raw_unit(Inner::Point, "derive(Debug, Clone, PartialEq, PartialOrd)", &format!("pub struct T({ty});"), pre);
+        out.push(Unit { id: String::new(), class: format!("derive-gate:control-partial-only:{name}"), features: feats(ALL), source, expect: Expect::Accept, expect_errors: vec![], tests_must_fail: vec![], tests_must_pass: vec![], decl, nontrivial: true });
     }
     // `new_unchecked` is the one way around `finite`: with the feature and the flag it exists, and calling it
     // outside `unsafe` must not compile - in any flavour of the declaration
